@@ -6,6 +6,8 @@ For every function of the analysed modules a behaviour-preserving variant of the
 
   rename   every local variable of the function (not parameters, not attributes) gets the suffix `_rn`
   flip     every `if a: X else: Y` of the function becomes `if not a: Y else: X`
+  retvar   every `return <expr>` becomes `_rv = <expr>; return _rv`
+  flipchain  the same, applied to if/elif/else chains too (`if a: X elif b: Y` becomes `if not a: (if not b: pass else: Y) else: X`)
 
 The variants are written to scratch directories under /tmp and removed immediately.
 usage: tools/autobenign.py [--kind rename|flip|both] [--jobs 16] [--module substr] [--limit N]
@@ -97,14 +99,40 @@ def rename_locals(fn) -> bool:
     return True
 
 
-def flip_ifs(fn) -> bool:
+def flip_ifs(fn, chains=False) -> bool:
     changed = False
     for n in ast.walk(fn):
-        if isinstance(n, ast.If) and n.orelse and not (len(n.orelse) == 1 and isinstance(n.orelse[0], ast.If)):
+        if isinstance(n, ast.If) and n.orelse and (chains or not (len(n.orelse) == 1 and isinstance(n.orelse[0], ast.If))):
             n.test = ast.UnaryOp(op=ast.Not(), operand=n.test)
             n.body, n.orelse = n.orelse, n.body
             changed = True
     return changed
+
+
+class _RetVar(ast.NodeTransformer):
+    """`return <expr>` -> `_rv = <expr>; return _rv` (not inside nested definitions)"""
+    def __init__(self):
+        self.changed = False
+
+    def visit_FunctionDef(self, node):
+        return node
+
+    visit_AsyncFunctionDef = visit_Lambda = visit_ClassDef = visit_FunctionDef
+
+    def visit_Return(self, node):
+        if node.value is None or isinstance(node.value, (ast.Name, ast.Constant)):
+            return node
+        self.changed = True
+        return [ast.Assign(targets=[ast.Name(id="_rv", ctx=ast.Store())], value=node.value),
+                ast.Return(value=ast.Name(id="_rv", ctx=ast.Load()))]
+
+
+def retvar(fn) -> bool:
+    if any(isinstance(n, (ast.Yield, ast.YieldFrom)) for n in shallow(fn)):
+        return False
+    t = _RetVar()
+    fn.body = [x for st in fn.body for x in (lambda r: r if isinstance(r, list) else [r])(t.visit(st))]
+    return t.changed
 
 
 def make_variants(kinds, module_filter):
@@ -121,7 +149,8 @@ def make_variants(kinds, module_filter):
                 # duplicate qualnames (two definitions of one name): take the first
                 if fn is None:
                     continue
-                ok = rename_locals(fn) if kind == "rename" else flip_ifs(fn)
+                ok = rename_locals(fn) if kind == "rename" else retvar(fn) if kind == "retvar" \
+                    else flip_ifs(fn, chains=(kind == "flipchain"))
                 if not ok:
                     continue
                 ast.fix_missing_locations(tree)
